@@ -311,19 +311,24 @@ class CallTracer:
         # from a function returning (or yielding) None. In the latter case, the
         # the last instruction that was executed should always be a return or a
         # yield.
-        typ = get_type(arg, max_typed_dict_size=self.max_typed_dict_size)
-        last_opcode = frame.f_code.co_code[frame.f_lasti]
         trace = self.traces.get(frame)
         if trace is None:
             return
-        elif last_opcode == YIELD_VALUE_OPCODE:
+        last_opcode = frame.f_code.co_code[frame.f_lasti]
+        if last_opcode == YIELD_VALUE_OPCODE:
             # a coroutine suspending on an await is not a yield
             if not _suspended_on_await(frame.f_code, frame.f_lasti):
-                trace.add_yield_type(typ)
+                trace.add_yield_type(
+                    get_type(arg, max_typed_dict_size=self.max_typed_dict_size)
+                )
         else:
-            if last_opcode in RETURN_OPCODES:
-                trace.return_type = typ
+            # The frame is finished. Forget it first: should typing its value
+            # fail (a list that contains itself), nothing must stay behind.
             del self.traces[frame]
+            if last_opcode in RETURN_OPCODES:
+                trace.return_type = get_type(
+                    arg, max_typed_dict_size=self.max_typed_dict_size
+                )
             self.logger.log(trace)
 
     def __call__(self, frame: FrameType, event: str, arg: Any) -> "CallTracer":
